@@ -111,6 +111,7 @@ def splitBar (ts : List String) : List (List String) :=
 def handle (toks : List String) : Option String := do
   match splitBar toks with
   | ("runx" :: _) :: _ => pure "~"  -- no model side: the implementation run without cache was abandoned
+  | ("hist" :: _) :: _ => pure "~"  -- histories on one handle: no model side (the model has no ValidationCache)
   | [["run", _hid, qname, qtype, _e, d, c, _faults], "U" :: n :: us, "T" :: _ :: ts] =>
     let depth ← (d.drop 1).toNat?
     let cd := c == "C1"
